@@ -152,6 +152,8 @@ structure Script where
   name : Text               -- the plugin name it reports
   version : Text            -- the version it reports
   valid : Bool              -- false: exits non-zero / prints no JSON / misses a required field
+  interp : Bool             -- its `#!` line names a private interpreter of the sandbox (else /bin/sh);
+                            -- no influence until the world removes that interpreter (`rminterp`)
   deriving DecidableEq, Repr, FromJson, ToJson
 
 /-- a regular file -/
@@ -181,8 +183,10 @@ def Entry.toFile (e : Entry) : File := ⟨e.name, e.exec, e.gox, e.cid, e.script
 
 /-- `install` / `uninstall` are calls of the manager; `plant` and `rmexe` are what the world
 does to the plugin root behind the manager's back (an interrupted earlier installation, a
-hand-copied or damaged plugin, a user deleting only the binary) -/
-inductive OpKind | install | uninstall | plant | rmexe
+hand-copied or damaged plugin, a user deleting only the binary); `rminterp`: the private
+interpreters named by the `#!` lines of the files of one plugin directory disappear (a removed
+runtime): the files are intact, executing them fails with "no such file or directory") -/
+inductive OpKind | install | uninstall | plant | rmexe | rminterp
   deriving DecidableEq, Repr, FromJson, ToJson
 
 structure Op where
@@ -437,12 +441,28 @@ def plant (st : State) (n : Text) (es : List Entry) : State :=
 def rmexe (st : State) (n : Text) : State :=
   st.map fun p => if p.name == n then { p with files := delBy File.name (binName n) p.files } else p
 
+def File.usesInterp (f : File) : Bool :=
+  match f.script with
+  | some s => s.interp
+  | none => false
+
+/-- the file's private interpreter is gone: it cannot be executed any more (kept as "does not
+answer" in the file's behaviour; its name, content and mode are what they were) -/
+def breakInterp (f : File) : File :=
+  match f.script with
+  | some s => if s.interp then { f with script := some { s with valid := false } } else f
+  | none => f
+
+def rminterp (st : State) (n : Text) : State :=
+  st.map fun p => if p.name == n then { p with files := p.files.map breakInterp } else p
+
 def step (st : State) (op : Op) : Outcome × State :=
   match op.kind with
   | .install => install st op
   | .uninstall => uninstall st op.name
   | .plant => (⟨.ok, none, none⟩, plant st op.name op.entries)
   | .rmexe => (⟨.ok, none, none⟩, rmexe st op.name)
+  | .rminterp => (⟨.ok, none, none⟩, rminterp st op.name)
 
 /-! ## 6. observation -/
 
@@ -451,6 +471,7 @@ structure FileObs where
   cid : Nat
   exec : Bool
   gox : Bool
+  interp : Bool            -- its `#!` line names a private interpreter of the sandbox
   deriving DecidableEq, Repr, FromJson, ToJson
 
 structure PluginObs where
@@ -467,7 +488,7 @@ structure StepObs where
   listed : List Text           -- CLIManager.List after the operation
   deriving DecidableEq, Repr, FromJson, ToJson
 
-def fobs (f : File) : FileObs := ⟨f.name, f.cid, f.exec, f.gox⟩
+def fobs (f : File) : FileObs := ⟨f.name, f.cid, f.exec, f.gox, f.usesInterp⟩
 def pobs (p : Plugin) : PluginObs := ⟨p.name, p.files.map fobs, answer p⟩
 def observe (st : State) : List PluginObs := st.map pobs
 
@@ -620,7 +641,8 @@ def cListed : Triple → Bool
   | (_, _, s) => s.listed == s.root.map (·.name)
 
 /-- the operation is the world touching the directory `n` behind the manager's back -/
-def touches (op : Op) (n : Text) : Bool := (op.kind == .plant || op.kind == .rmexe) && op.name == n
+def touches (op : Op) (n : Text) : Bool :=
+  (op.kind == .plant || op.kind == .rmexe || op.kind == .rminterp) && op.name == n
 
 /-- never half-replaced: a directory that does not answer after an operation was there,
 exactly like that, before it - unless the operation is the world planting / damaging it -/
